@@ -726,6 +726,46 @@ def after_rejection_part(h, tmp):
         os.chdir(cwd)
 
 
+# ---------------------------------------------------------------------------------------------- JSON documents across parser modes
+JSON_DOCS = {
+    "surrogate-pair-escape": ('{"s": "\\ud83d\\ude00"}', "s"), "unicode-escapes": ('{"s": "\\u00e9\\n\\t"}', "s"), "string-with-hash": ('{"s": "a #b"}', "s"), "string-with-colon": ('{"s": "a: b"}', "s"),
+    "string-???": ('{"s": "???"}', "s"), "string-${x}": ('{"s": "${x}"}', "s"), "string-${oc.env:HOME}": ('{"s": "${oc.env:HOME}"}', "s"), "string-looks-like-jsonnet": ('{"s": "std.length([1])"}', "s"),
+    "int-beyond-2^63": ('{"i": 12345678901234567890}', "i"), "int-beyond-2^53-in-a-list": ('{"l": [9007199254740993]}', "l"), "int": ('{"i": -7}', "i"),
+    "float-1.0-at-Union[int,float]": ('{"u": 1.0}', "u"), "float-1.0-at-Any": ('{"a": 1.0}', "a"), "float-1.0-at-float": ('{"f": 1.0}', "f"), "float-1e5": ('{"f": 1e5}', "f"), "float-1e2-at-int": ('{"i": 1e2}', "i"),
+    "negative-zero": ('{"f": -0.0}', "f"), "float-overflow": ('{"f": 1e400}', "f"), "duplicate-key": ('{"i": 1, "i": 2}', "i"), "empty-mapping": ('{"d": {}}', "d"), "dotted-key-inside-a-dict": ('{"d": {"a.b": 1}}', "d"),
+    "null-at-Optional": ('{"o": null}', "o"), "true-at-bool": ('{"b": true}', "b"), "nested-list": ('{"a": [[1, "x"], {"k": null}]}', "a"),
+}
+
+
+def json_documents_part(h):
+    """One JSON document is read identically under the yaml, json, jsonnet and omegaconf parser modes (last sentence of the statement):
+    parse_string of the same text under each mode; json mode (Python's json.loads) is the reference reading."""
+    from typing import Any
+    from jsonargparse import ArgumentParser
+
+    def mk(mode):
+        p = ArgumentParser(exit_on_error=False, parser_mode=mode)
+        for k, t in (("s", str), ("i", int), ("u", Union[int, float]), ("a", Any), ("f", float), ("d", Dict[str, Any]), ("l", List[int]), ("o", Optional[int]), ("b", bool)):
+            p.add_argument("--" + k, type=t)
+        return p
+
+    def read(mode, text, key):
+        try:
+            with quiet():
+                v = mk(mode).parse_string(text)[key]
+            return "%s:%r" % (type(v).__name__, v)
+        except BaseException as ex:  # noqa
+            return "rejected"
+
+    for name, (text, key) in JSON_DOCS.items():
+        ref = read("json", text, key)
+        for mode in ("yaml", "jsonnet", "omegaconf"):
+            got = read(mode, text, key)
+            h.check(got == ref, "c05:json-document-across-modes:%s:%s-%s" % (name, mode, "reads-it-differently" if got != "rejected" and ref != "rejected" else "rejects-it" if got == "rejected" else "accepts-it"),
+                    "the JSON document %s is read as %s in json mode and as %s in %s mode" % (text, ref, got, mode), {"document": text, "json mode": ref, mode + " mode": got})
+            h.nontrivial(("json-doc", name, mode))
+
+
 def main():
     h = Harness("b05_channels", rule="one evaluation = one (type, value, key position) setting delivered through every planned channel/mode/spelling and compared "
                 "within its scope (1 scope, or 2 for settings whose command line text is ambiguous); distinct non-trivial = distinct setting; a setting "
@@ -753,6 +793,7 @@ def main():
     import tempfile
     with tempfile.TemporaryDirectory(prefix="b05_ar_") as artmp:
         after_rejection_part(h, artmp)
+    json_documents_part(h)
     h.note("deliveries (single parses): %(deliveries)d, accepted: %(accepted)d; settings accepted by every channel: %(all_accept)d, rejected by every channel: %(all_reject)d" % stats)
     leaves, d1, d2 = terms(h.thorough)
     sys.exit(h.finish(exhaustive=True, bound="types: %d leaves, %d of depth 1 (Optional, List, Dict[str,.], Tuple[.,...], Set of every leaf; 6 fixed tuples; every ordered pair of "
@@ -763,11 +804,13 @@ def main():
                       "document: every non-empty subset of {G.k, G.o, G.h.z} (G a dotted group / a dataclass group) x every spelling of every key (each dot splits "
                       "or stays inside a mapping key) x every order of the keys, through parse_string, parse_object, --cfg string (yaml, json, omegaconf), "
                       "--cfg file, parse_path, env config (yaml), parse_string (jsonnet), against the same options on the command line; 3 settings through 5 config-side "
-                      "channels on a parser that has just rejected one of 5 inputs, against a fresh parser"
+                      "channels on a parser that has just rejected one of 5 inputs, against a fresh parser; %d JSON documents (escapes, numbers at the limits of doubles, strings that mean "
+                      "something to a loader, duplicate keys) under the 4 parser modes"
                       % (len(leaves), len(d1), len(d2), len(NULL_TYPES), len(TRICKY),
                          ", dotted group and dataclass group" if h.thorough else " (every setting), dotted group and dataclass group (every fourth setting each)",
                          "all channels" if h.thorough else "argv, parse_string, parse_object at the flat key",
-                         "the leaf types, one value of every depth-1 type" + ("" if h.thorough else " that is not a Union") + (", every third value of every type at the flat key" if h.thorough else ""), "; + 2000 seeded random mutated values" if h.thorough else "")))
+                         "the leaf types, one value of every depth-1 type" + ("" if h.thorough else " that is not a Union") + (", every third value of every type at the flat key" if h.thorough else ""), "; + 2000 seeded random mutated values" if h.thorough else "",
+                         len(JSON_DOCS))))
 
 
 def collect(h, results, stats):
